@@ -144,7 +144,7 @@ impl MonitorSet {
             self.m_ready(sim, i, c, o, pre, post);
         }
         if self.f.read_index {
-            self.m_read(i, c, o, pre, post);
+            self.m_read(sim, i, c, o, pre, post);
         }
         if self.f.conf_change {
             self.m_conf(sim, i, c, o, pre, post);
@@ -296,7 +296,7 @@ impl MonitorSet {
     }
 
     // ---- C08
-    fn m_read(&mut self, _i: usize, c: &Call, o: &CallOutcome, pre: &NodeSnap, post: &NodeSnap) {
+    fn m_read(&mut self, sim: &Sim, _i: usize, c: &Call, o: &CallOutcome, pre: &NodeSnap, post: &NodeSnap) {
         if !post.read_safe {
             return;
         }
@@ -324,7 +324,9 @@ impl MonitorSet {
                     if n != id {
                         self.fail("read-wrong-node", format!("read state for context {:?} issued on node {} was delivered on node {}", ctx, n, id));
                     } else if idx < bar {
-                        self.fail("stale-read", format!("node {}: read state for context {:?} has index {} but commit index {} had been reached when the read was issued", id, ctx, idx, bar));
+                        // released by an acknowledgement counted for a re-recorded duplicate request: the known finding
+                        let kind = if sim.pt.tainted_reads.contains(ctx) { "stale-read-by-duplicates" } else { "stale-read" };
+                        self.fail(kind, format!("node {}: read state for context {:?} has index {} but commit index {} had been reached when the read was issued", id, ctx, idx, bar));
                     }
                 }
             }
